@@ -158,8 +158,8 @@ type simAddr string
 func (a simAddr) Network() string { return "sim" }
 func (a simAddr) String() string  { return string(a) }
 
-func (c *SimConn) LocalAddr() net.Addr                { return simAddr(c.label) }
-func (c *SimConn) RemoteAddr() net.Addr               { return simAddr(c.label + "-peer") }
+func (c *SimConn) LocalAddr() net.Addr               { return simAddr(c.label) }
+func (c *SimConn) RemoteAddr() net.Addr              { return simAddr(c.label + "-peer") }
 func (c *SimConn) SetDeadline(t time.Time) error     { return c.SetWriteDeadline(t) }
 func (c *SimConn) SetReadDeadline(t time.Time) error { return nil }
 func (c *SimConn) SetWriteDeadline(t time.Time) error {
@@ -345,61 +345,61 @@ func pgMessageBytes(typ byte, payload ...byte) []byte {
 
 // hostileClientMessages are well-framed client messages that a session did nothing to prepare for.
 var hostileClientMessagesMy = [][]byte{
-	myPacketBytes(0, 0x17, 0xff, 0xff, 0xff, 0xff, 0x00, 0x01, 0x00, 0x00, 0x00),                   // execute "the last prepared statement" (MariaDB) when there is none
+	myPacketBytes(0, 0x17, 0xff, 0xff, 0xff, 0xff, 0x00, 0x01, 0x00, 0x00, 0x00),                                    // execute "the last prepared statement" (MariaDB) when there is none
 	myPacketBytes(0, 0x17, 0x09, 0x00, 0x00, 0x00, 0x00, 0x01, 0x00, 0x00, 0x00, 0x00, 0x01, 0xfd, 0x00, 0x01, 'x'), // execute of an unknown statement with a parameter
-	myPacketBytes(0, 0x18, 0x01, 0x00, 0x00, 0x00, 0x00, 0x00, 'd', 'a', 't', 'a'),                 // send long data
-	myPacketBytes(0, 0x1c, 0x01, 0x00, 0x00, 0x00, 0x01, 0x00, 0x00, 0x00),                         // fetch
-	myPacketBytes(0, 0x19, 0x01, 0x00),                                                             // close, short
-	myPacketBytes(0, 0x1a),                                                                         // reset without an id
-	myPacketBytes(0, 0x16),                                                                         // prepare without text
-	myPacketBytes(0, 0x03),                                                                         // query without text
-	myPacketBytes(0, 0x04, 't', '1', 0x00, '%'),                                                    // field list
-	myPacketBytes(0, 0x11, 'u', 0x00, 0x00, 'd', 'b', 0x00),                                        // change user
-	myPacketBytes(0, 0x1f),                                                                         // reset connection
-	myPacketBytes(7, 0x0e),                                                                         // ping with a wrong sequence number
+	myPacketBytes(0, 0x18, 0x01, 0x00, 0x00, 0x00, 0x00, 0x00, 'd', 'a', 't', 'a'),                                  // send long data
+	myPacketBytes(0, 0x1c, 0x01, 0x00, 0x00, 0x00, 0x01, 0x00, 0x00, 0x00),                                          // fetch
+	myPacketBytes(0, 0x19, 0x01, 0x00),                                                                              // close, short
+	myPacketBytes(0, 0x1a),                                                                                          // reset without an id
+	myPacketBytes(0, 0x16),                                                                                          // prepare without text
+	myPacketBytes(0, 0x03),                                                                                          // query without text
+	myPacketBytes(0, 0x04, 't', '1', 0x00, '%'),                                                                     // field list
+	myPacketBytes(0, 0x11, 'u', 0x00, 0x00, 'd', 'b', 0x00),                                                         // change user
+	myPacketBytes(0, 0x1f),                                                                                          // reset connection
+	myPacketBytes(7, 0x0e),                                                                                          // ping with a wrong sequence number
 }
 
 var hostileClientMessagesPg = [][]byte{
-	pgMessageBytes('B', 0, 'n', 'o', 'n', 'e', 0, 0, 0, 0, 0, 0, 0),                 // Bind to a statement that was never prepared
-	pgMessageBytes('E', 'p', 0, 0, 0, 0, 0),                                         // Execute of an unknown portal
-	pgMessageBytes('E'),                                                             // Execute without a body
-	pgMessageBytes('D', 'S', 'x', 0),                                                // Describe unknown statement
-	pgMessageBytes('D'),                                                             // Describe without a body
-	pgMessageBytes('C', 'P', 'x', 0),                                                // Close unknown portal
-	pgMessageBytes('P', 0, 0),                                                       // Parse cut after the name
-	pgMessageBytes('P', 0, 'S', 'E', 'L', 'E', 'C', 'T', ' ', '1', 0, 0x7f, 0xff),   // Parse declaring 32767 parameter types
-	pgMessageBytes('Q'),                                                             // Query without text
-	pgMessageBytes('d', 'r', 'o', 'w'),                                              // CopyData out of place
-	pgMessageBytes('f', 'n', 'o', 0),                                                // CopyFail out of place
-	pgMessageBytes('F', 0, 0, 0, 1, 0, 0, 0, 0, 0, 0),                               // FunctionCall
-	pgMessageBytes('H'),                                                             // Flush
-	pgMessageBytes('S'),                                                             // Sync out of place
+	pgMessageBytes('B', 0, 'n', 'o', 'n', 'e', 0, 0, 0, 0, 0, 0, 0), // Bind to a statement that was never prepared
+	pgMessageBytes('E', 'p', 0, 0, 0, 0, 0),                         // Execute of an unknown portal
+	pgMessageBytes('E'),                                             // Execute without a body
+	pgMessageBytes('D', 'S', 'x', 0),                                // Describe unknown statement
+	pgMessageBytes('D'),                                             // Describe without a body
+	pgMessageBytes('C', 'P', 'x', 0),                                // Close unknown portal
+	pgMessageBytes('P', 0, 0),                                       // Parse cut after the name
+	pgMessageBytes('P', 0, 'S', 'E', 'L', 'E', 'C', 'T', ' ', '1', 0, 0x7f, 0xff), // Parse declaring 32767 parameter types
+	pgMessageBytes('Q'),                               // Query without text
+	pgMessageBytes('d', 'r', 'o', 'w'),                // CopyData out of place
+	pgMessageBytes('f', 'n', 'o', 0),                  // CopyFail out of place
+	pgMessageBytes('F', 0, 0, 0, 1, 0, 0, 0, 0, 0, 0), // FunctionCall
+	pgMessageBytes('H'),                               // Flush
+	pgMessageBytes('S'),                               // Sync out of place
 }
 
 // hostileServerMessages are well-framed messages from the database side that nothing asked for.
 // (Lengths that declare gigabytes are left out for the same reason as in the bit-flip faults: the proxy
 // allocates what a length field declares.)
 var hostileServerMessagesMy = [][]byte{
-	myPacketBytes(1, 0xfb, '/', 'e', 't', 'c', '/', 'x'),                         // LOCAL INFILE request
-	myPacketBytes(1, 0xfc, 0xff, 0xff),                                           // result set with 65535 columns
-	myPacketBytes(1, 0x00),                                                       // OK packet cut after the header
-	myPacketBytes(1, 0xff),                                                       // ERR packet cut after the header
-	myPacketBytes(1, 0xfe),                                                       // EOF packet cut after the header
-	myPacketBytes(1, 0x01),                                                       // one column, then whatever follows
+	myPacketBytes(1, 0xfb, '/', 'e', 't', 'c', '/', 'x'), // LOCAL INFILE request
+	myPacketBytes(1, 0xfc, 0xff, 0xff),                   // result set with 65535 columns
+	myPacketBytes(1, 0x00),                               // OK packet cut after the header
+	myPacketBytes(1, 0xff),                               // ERR packet cut after the header
+	myPacketBytes(1, 0xfe),                               // EOF packet cut after the header
+	myPacketBytes(1, 0x01),                               // one column, then whatever follows
 	myPacketBytes(1, 0x00, 0x01, 0x00, 0x00, 0x00, 0xff, 0xff, 0xff, 0xff, 0x00, 0x00, 0x00), // prepare-OK declaring 65535 columns and parameters
 }
 
 var hostileServerMessagesPg = [][]byte{
-	pgMessageBytes('D', 0, 3, 0, 0, 0, 1, 'x'),                                                // DataRow nobody asked for, cut after its first column
-	pgMessageBytes('D', 0x7f, 0xff),                                                           // DataRow declaring 32767 columns
-	pgMessageBytes('D'),                                                                       // DataRow without a body
-	pgMessageBytes('T', 0, 2, 'a', 0, 0, 0, 0, 0, 0, 0),                                       // RowDescription cut inside a field
-	pgMessageBytes('T', 0x7f, 0xff),                                                           // RowDescription declaring 32767 fields
-	pgMessageBytes('t', 0x7f, 0xff),                                                           // ParameterDescription declaring 32767 parameters
-	pgMessageBytes('t'),                                                                       // ParameterDescription without a body
-	pgMessageBytes('G', 0, 0, 1, 0, 0),                                                        // CopyInResponse
-	pgMessageBytes('E'),                                                                       // ErrorResponse without fields
-	pgMessageBytes('Z'),                                                                       // ReadyForQuery without a status
-	pgMessageBytes('1'), pgMessageBytes('2'), pgMessageBytes('n'), pgMessageBytes('s'),        // completions out of place
-	pgMessageBytes('C', 'S', 'E', 'L', 'E', 'C', 'T'),                                         // CommandComplete without terminator
+	pgMessageBytes('D', 0, 3, 0, 0, 0, 1, 'x'),                                         // DataRow nobody asked for, cut after its first column
+	pgMessageBytes('D', 0x7f, 0xff),                                                    // DataRow declaring 32767 columns
+	pgMessageBytes('D'),                                                                // DataRow without a body
+	pgMessageBytes('T', 0, 2, 'a', 0, 0, 0, 0, 0, 0, 0),                                // RowDescription cut inside a field
+	pgMessageBytes('T', 0x7f, 0xff),                                                    // RowDescription declaring 32767 fields
+	pgMessageBytes('t', 0x7f, 0xff),                                                    // ParameterDescription declaring 32767 parameters
+	pgMessageBytes('t'),                                                                // ParameterDescription without a body
+	pgMessageBytes('G', 0, 0, 1, 0, 0),                                                 // CopyInResponse
+	pgMessageBytes('E'),                                                                // ErrorResponse without fields
+	pgMessageBytes('Z'),                                                                // ReadyForQuery without a status
+	pgMessageBytes('1'), pgMessageBytes('2'), pgMessageBytes('n'), pgMessageBytes('s'), // completions out of place
+	pgMessageBytes('C', 'S', 'E', 'L', 'E', 'C', 'T'), // CommandComplete without terminator
 }
